@@ -1,8 +1,8 @@
 #!/bin/bash
-# tools/seed_import.sh <PROP>   copy the seeds a sub-agent left in /tmp/wt-<PROP>/_seed/* to /verif/seeded/<PROP>-<k>/
+# tools/seed_import.sh <PROP> [worktree]   copy the seeds a sub-agent left in <worktree>/_seed/* (default /tmp/wt-<PROP>) to /verif/seeded/<PROP>-<k>/
 set -e
-P="$1"
-for d in /tmp/wt-$P/_seed/*/; do
+P="$1"; W="${2:-/tmp/wt-$P}"
+for d in $W/_seed/*/; do
   k=$(basename "$d")
   t=/verif/seeded/$P-$k
   mkdir -p "$t"
